@@ -279,7 +279,7 @@ def spec_zipper(kind, outputs, cleaned, functional=False):
               f'0 <= slab_read_offsets[i] and 0 <= slab_read_lens[i] and slab_read_offsets[i] + slab_read_lens[i] <= len({slab})']
     if cleaned:
         ground.append(f'0 <= clean_slab_read_offsets[i] and 0 <= clean_slab_read_lens[i] and clean_slab_read_offsets[i] + clean_slab_read_lens[i] <= len({cslab})')
-    return FnSpec(CHC, 'CompaSOHaloCatalog.' + K['fn'], prop='C01', name=K['fn'] + tag, mode='bv', args=args, ghosts=C04.ghosts,
+    return FnSpec(CHC, 'CompaSOHaloCatalog.' + K['fn'], prop='C01', name=K['fn'] + tag, mode='bv', args=args, ghosts=C04.ghosts, auto_skolem=True,
                   requires=req, ensures=rows(H), frame=sorted(outputs), callees=K['callee'],
                   loops={0: LoopSpec(invariant=['0 <= i and i <= ' + H] + rows('i'),
                                      # original segment right after the first decoder call, then (end of body) again - the second call's
